@@ -2,14 +2,20 @@ import PedVerif.Spec.Validators
 /-!
 # C14 — validators and `convert_value` decide exactly their documented predicate
 
-Property theorems only.  `minValidate`, `maxValidate`, `minLengthValidate`, `maxLengthValidate`, `notEmptyValidate` and
-all tables (`…Caught…`, `…Rejects`, `regexEmail`, `convert…`) are the definitions the translator regenerates from the
-source on every run (`PedVerif.Gen.Validators`), so these proofs are re-checked against what the code says now:
-`<` ↔ `<=`, an off-by-one length, a missing `strip`, a narrowed `except`, another exception class on a rejection path,
-another e-mail pattern or `re` entry point make them fail.
+Property theorems only.  `minValidate`, `maxValidate`, `minLengthValidate`, `maxLengthValidate`, `notEmptyValidate`,
+`isUuidValidate`, `isEnumValidate`, `matchPatternValidate`, `datetimeIsoFormatValidate`, `dateTimeUnixTimestampValidate`,
+`emailValidate` (statement-by-statement translations of the `validate` bodies; the standard-library callees are opaque
+function parameters) and all tables (`…Caught<i>`, `rejects`, `excBases`, `regexEmail`, `convert…`) are the definitions the
+translator regenerates from the source on every run (`PedVerif.Gen.Validators`), so these proofs are re-checked against what
+the code says now: `<` ↔ `<=`, an off-by-one length, a missing `strip`, `converted_value if self._convert else value` → `value`,
+a narrowed `except`, a guard moved behind the call it guards, another exception class on a rejection path, a lost rejection
+statement, another e-mail pattern or `re` entry point, another epoch, a missing bool branch of `convert_value` make them fail.
 
 Each `*_exact` has the form: accepts ⇔ documented predicate ∧ returns the documented value ∧ every rejection is
-`ValidatorException`.
+`ValidatorException`; each `*_meets_spec` says that the model result is the executable spec the driver reports; the `*_eq`
+lemmas are the functional reading of a translated body (proved by walking every path of the generated function).
+What is assumed about the library callees is stated as hypotheses (`raisesWithin` the lists of `Model/Validators.lean`,
+`FloatOracleOK`, `StrOracleOK`, `FloatRoundTrip`) — environment facts exercised by the correspondence check, not Lean postulates.
 -/
 set_option linter.unusedSimpArgs false
 set_option linter.unusedVariables false
@@ -402,13 +408,28 @@ theorem email_exact (isSpace : Char → Bool) (s : List Char) :
 theorem email_source_shape :
     regexEmail = "[^@\\s]+@[^@\\s]+\\.[a-zA-Z0-9]+$" ∧ emailMethod = "fullmatch" ∧ emailSubject = "value" := by decide
 
+/-- closes `translated body = its functional reading`: every path of the generated function is walked (`split` on each
+    `if` / `match`), then each leaf is closed from the hypotheses in scope -/
+local macro "walk_paths" : tactic =>
+  `(tactic| ((repeat' split) <;> first | (simp_all [raiseExceptionClass]; done) | grind [raiseExceptionClass]))
+
+/-- the translated body of `Email.validate`, as a function of what the `re` callee answers -/
+theorem emailValidate_eq (reMatch : Val → Orc Bool) (post : Val → Val) (v : Val) :
+    emailValidate reMatch post v =
+      match reMatch v with
+      | .ok true => .ok (post v)
+      | .ok false => .raises .validator
+      | .raises e => .raises e := by
+  unfold emailValidate
+  walk_paths
+
 /-- **Email** (default pattern): accepted ⇔ `EmailSpec`; returns `post_processor(value)`; rejection is ValidatorException -/
 theorem vEmail_exact (isSpace : Char → Bool) (post : Val → Val) (s : List Char) :
     (∀ r, vEmail isSpace post (.str s) = .ok r ↔ (EmailSpec isSpace s ∧ r = post (.str s))) ∧
     (∀ e, vEmail isSpace post (.str s) = .raises e → e = .validator) ∧
     (¬ EmailSpec isSpace s → vEmail isSpace post (.str s) = .raises .validator) := by
   rw [← email_exact]
-  simp only [vEmail, emailRejects, raiseExceptionClass]
+  simp only [vEmail, emailValidate_eq, emailFullmatch]
   cases emailMatch isSpace s <;> simp [eq_comm]
 
 theorem split_at_index (s : List Char) (i : Nat) (c : Char) (h : s[i]? = some c) :
@@ -465,7 +486,7 @@ theorem vEmail_meets_spec (isSpace : Char → Bool) (post : Val → Val) (v : Va
   rename_i s
   have h1 := email_exact isSpace s
   have h2 := emailSpecB_iff isSpace s
-  simp only [vEmail, emailRejects, raiseExceptionClass]
+  simp only [vEmail, emailValidate_eq, emailFullmatch]
   cases hm : emailMatch isSpace s <;> cases hb : emailSpecB isSpace s <;> simp
   · exact absurd (h1.2 (h2.1 hb)) (by simp [hm])
   · exact absurd (h2.2 (h1.1 hm)) (by simp [hb])
@@ -475,7 +496,12 @@ example : emailMatch asciiSpace "a@b.co\n".toList = false := by decide
 example : emailMatch asciiSpace "a@b@c.de".toList = false := by decide
 example : emailMatch asciiSpace "a@b.c.d_".toList = false := by decide
 
-/-! ## validators that ask the standard library: accepted ⇔ the library says valid -/
+/-! ## validators that ask the standard library: accepted ⇔ the library says valid
+
+`isUuidValidate`, `isEnumValidate`, `matchPatternValidate`, `datetimeIsoFormatValidate`, `dateTimeUnixTimestampValidate` and
+`emailValidate` are the statement-by-statement translations of the `validate` bodies (regenerated on every run); the library
+callees are opaque function parameters.  The theorems quantify over all such functions; what they assume about them is
+only which classes they raise (`raisesWithin`, environment facts exercised by the correspondence check). -/
 
 /-- which classes the callees can raise vs. which the code catches: every one is caught (narrowing an `except` breaks this) -/
 theorem uuid_catches_all : ∀ e ∈ uuidRaises, catches isUuidCaught0 e = true := by decide
@@ -484,94 +510,236 @@ theorem unix_float_catches_all : ∀ e ∈ floatOfRaises, catches dateTimeUnixTi
 theorem unix_add_catches_all : ∀ e ∈ timedeltaRaises ++ [.overflowError], catches dateTimeUnixTimestampCaught1 e = true := by decide
 /-- `int(x)` can raise ValueError, TypeError and OverflowError (`int(float('inf'))`), `enum(x)` ValueError: all caught -/
 theorem enum_catches_all : ∀ e ∈ intOfRaises ++ enumLookupRaises, catches isEnumCaught0 e = true := by decide
-/-- the handlers and guards reject with ValidatorException -/
-theorem handlers_reject_with_validator :
-    isUuidHandler0 = .validator ∧ isEnumHandler0 = .validator ∧ datetimeIsoFormatHandler0 = .validator ∧
-    dateTimeUnixTimestampHandler0 = .validator ∧ dateTimeUnixTimestampHandler1 = .validator ∧
-    emailRejects = .validator ∧ matchPatternRejects = .validator ∧ forEachRejects = .validator ∧
-    dateTimeUnixTimestampRejects = .validator := by decide
-/-- every rejection path of every validator class raises ValidatorException (table read from the sources) -/
-theorem all_rejections_are_ValidatorException : ∀ row ∈ rejects, ∀ e ∈ row.2, e = Exc.validator := by decide
+/-- the guard of ForEach (its loop is modelled by hand) rejects with ValidatorException -/
+theorem foreach_rejects_with_validator : forEachRejects = .validator := by decide
+/-- every rejection statement of every validator class raises ValidatorException (table read from the sources) — and the
+    table has the rejection statements the sources have: an extractor that stopped recognising one would shorten a row -/
+theorem all_rejections_are_ValidatorException :
+    (∀ row ∈ rejects, ∀ e ∈ row.2, e = Exc.validator) ∧
+    rejects.map (fun row => (row.1, row.2.length)) =
+      [("Composite", 0), ("DatetimeIsoFormat", 1), ("DateTimeUnixTimestamp", 3), ("Email", 1), ("IsEnum", 1), ("ForEach", 1),
+       ("IsUuid", 1), ("MatchPattern", 1), ("Max", 2), ("MaxLength", 2), ("Min", 2), ("MinLength", 2), ("NotEmpty", 3)] := by decide
+/-- the class hierarchy of exceptions.py (generated `excBases`) is the one `catches` walks (`Exc.base`): for every class
+    the model has a constructor for, the first base in the source is `Exc.base`; the three classes of the property are there -/
 theorem exception_hierarchy :
+    (∀ p ∈ excBases, (excOfName p.1).isModelled = true → (excOfName p.1).base = some (excOfName p.2)) ∧
     ("ValidatorException", "ValidateException") ∈ excBases ∧ ("ConversionError", "ValidateException") ∈ excBases ∧
-    ("ValidateException", "Exception") ∈ excBases := by decide
+    ("ValidateException", "Exception") ∈ excBases ∧
+    Exc.isSub .validator .validate = true ∧ Exc.isSub .conversion .validate = true ∧ Exc.isSub .validator .conversion = false := by decide
 
-def Orc.fold {α β : Type} (o : Orc α) (k : α → β) (h : β) : β := match o with | .ok v => k v | .raises _ => h
+theorem caught_of_within {α : Type} {o : Orc α} {l caught : List Exc} (hl : ∀ e ∈ l, catches caught e = true)
+    (ho : o.raisesWithin l) {e : Exc} (h : o = .raises e) : catches caught e = true := hl e (ho e h)
 
-theorem tryExcept_of_caught {α β : Type} (caught : List Exc) (h : VRes β) (o : Orc α) (k : α → VRes β) (l : List Exc)
-    (hl : ∀ e ∈ l, catches caught e = true) (ho : o.raisesWithin l) :
-    tryExcept caught h o k = o.fold k h := by
-  cases o with
-  | ok v => rfl
-  | raises e => simp [tryExcept, Orc.fold, hl e (ho e rfl)]
+/-- the translated body of `IsUuid.validate`, as a function of what `UUID(str(v))` answers -/
+theorem isUuidValidate_eq (convert : Bool) (uuidOfStr : Val → Orc Val) (v : Val) (ho : (uuidOfStr v).raisesWithin uuidRaises) :
+    isUuidValidate convert uuidOfStr v =
+      match uuidOfStr v with
+      | .ok u => .ok (if convert then u else v)
+      | .raises _ => .raises .validator := by
+  have hc := @caught_of_within Val (uuidOfStr v) _ _ uuid_catches_all ho
+  unfold isUuidValidate
+  walk_paths
 
 /-- **IsUuid.** accepted ⇔ `uuid.UUID(str(v))` succeeds; returns the UUID when `convert`, else the value unchanged. -/
-theorem uuid_exact (convert : Bool) (o : Orc Val) (v : Val) (ho : o.raisesWithin uuidRaises) :
-    (∀ r, vIsUuid convert o v = .ok r ↔ ∃ u, o = .ok u ∧ r = if convert then u else v) ∧
-    (∀ e, vIsUuid convert o v = .raises e → e = .validator) ∧
-    ((∃ e, o = .raises e) → vIsUuid convert o v = .raises .validator) := by
-  unfold vIsUuid
-  rw [tryExcept_of_caught _ _ _ _ _ uuid_catches_all ho]
-  cases o <;> simp [Orc.fold, isUuidHandler0, raiseExceptionClass, eq_comm]
+theorem uuid_exact (convert : Bool) (uuidOfStr : Val → Orc Val) (v : Val) (ho : (uuidOfStr v).raisesWithin uuidRaises) :
+    (∀ r, isUuidValidate convert uuidOfStr v = .ok r ↔ ∃ u, uuidOfStr v = .ok u ∧ r = if convert then u else v) ∧
+    (∀ e, isUuidValidate convert uuidOfStr v = .raises e → e = .validator) ∧
+    ((∃ e, uuidOfStr v = .raises e) → isUuidValidate convert uuidOfStr v = .raises .validator) := by
+  rw [isUuidValidate_eq convert uuidOfStr v ho]
+  cases uuidOfStr v with
+  | ok u =>
+    refine ⟨fun r => ⟨fun h => ⟨u, rfl, ?_⟩, fun ⟨u', hu, hr⟩ => ?_⟩, fun e h => ?_, fun ⟨e, h⟩ => ?_⟩
+    · cases h; rfl
+    · cases hu; rw [hr]
+    · cases h
+    · cases h
+  | raises e =>
+    refine ⟨fun r => ⟨fun h => ?_, fun ⟨u', hu, _⟩ => ?_⟩, fun e h => ?_, fun _ => rfl⟩
+    · cases h
+    · cases hu
+    · cases h; rfl
 
-theorem uuid_meets_spec (convert : Bool) (o : Orc Val) (v : Val) (ho : o.raisesWithin uuidRaises) :
-    match specIsUuid convert o v with
-    | .accept r _ => vIsUuid convert o v = .ok r
-    | .reject => vIsUuid convert o v = .raises .validator
+theorem uuid_meets_spec (convert : Bool) (uuidOfStr : Val → Orc Val) (v : Val) (ho : (uuidOfStr v).raisesWithin uuidRaises) :
+    match specIsUuid convert uuidOfStr v with
+    | .accept r _ => vIsUuid convert uuidOfStr v = .ok r
+    | .reject => vIsUuid convert uuidOfStr v = .raises .validator
     | .na => True := by
   unfold vIsUuid specIsUuid
-  rw [tryExcept_of_caught _ _ _ _ _ uuid_catches_all ho]
-  cases o <;> cases convert <;> simp [Orc.fold, isUuidHandler0, raiseExceptionClass]
+  rw [isUuidValidate_eq convert uuidOfStr v ho]
+  cases uuidOfStr v with
+  | ok u => cases convert <;> simp [Orc.toOption]
+  | raises e => simp [Orc.toOption]
+
+/-- the translated body of `DatetimeIsoFormat.validate`, as a function of what `datetime.fromisoformat(v)` answers -/
+theorem datetimeIsoFormatValidate_eq (fromIso : Val → Orc Val) (v : Val) (ho : (fromIso v).raisesWithin isoRaises) :
+    datetimeIsoFormatValidate fromIso v =
+      match fromIso v with
+      | .ok d => .ok d
+      | .raises _ => .raises .validator := by
+  have hc := @caught_of_within Val (fromIso v) _ _ iso_catches_all ho
+  unfold datetimeIsoFormatValidate
+  walk_paths
 
 /-- **DatetimeIsoFormat.** accepted ⇔ `datetime.fromisoformat(v)` succeeds; returns that datetime. -/
-theorem iso_exact (o : Orc Val) (v : Val) (ho : o.raisesWithin isoRaises) :
-    (∀ r, vIso o v = .ok r ↔ o = .ok r) ∧
-    (∀ e, vIso o v = .raises e → e = .validator) ∧
-    ((∃ e, o = .raises e) → vIso o v = .raises .validator) := by
-  unfold vIso
-  rw [tryExcept_of_caught _ _ _ _ _ iso_catches_all ho]
-  cases o <;> simp [Orc.fold, datetimeIsoFormatHandler0, raiseExceptionClass, eq_comm]
+theorem iso_exact (fromIso : Val → Orc Val) (v : Val) (ho : (fromIso v).raisesWithin isoRaises) :
+    (∀ r, datetimeIsoFormatValidate fromIso v = .ok r ↔ fromIso v = .ok r) ∧
+    (∀ e, datetimeIsoFormatValidate fromIso v = .raises e → e = .validator) ∧
+    ((∃ e, fromIso v = .raises e) → datetimeIsoFormatValidate fromIso v = .raises .validator) := by
+  rw [datetimeIsoFormatValidate_eq fromIso v ho]
+  cases fromIso v with
+  | ok d => simp [eq_comm]
+  | raises e => simp
+
+theorem iso_meets_spec (fromIso : Val → Orc Val) (v : Val) (ho : (fromIso v).raisesWithin isoRaises) :
+    match specIso fromIso v with
+    | .accept r _ => vIso fromIso v = .ok r
+    | .reject => vIso fromIso v = .raises .validator
+    | .na => True := by
+  unfold vIso specIso
+  rw [datetimeIsoFormatValidate_eq fromIso v ho]
+  cases fromIso v <;> simp [Orc.toOption]
+
+/-- the translated body of `MatchPattern.validate`, as a function of what the `re` callee answers (there is no `try`:
+    whatever `re` raises escapes as it is) -/
+theorem matchPatternValidate_eq (reMatch : Val → Orc Bool) (v : Val) :
+    matchPatternValidate reMatch v =
+      match reMatch v with
+      | .ok true => .ok v
+      | .ok false => .raises .validator
+      | .raises e => .raises e := by
+  unfold matchPatternValidate
+  walk_paths
 
 /-- **MatchPattern.** accepted ⇔ `pattern.search(str(v))` finds a match; the value is returned unchanged. -/
-theorem pattern_exact (m : Bool) (v : Val) :
-    (vMatchPattern (.ok m) v = .ok v ↔ m = true) ∧
-    (∀ r, vMatchPattern (.ok m) v = .ok r → r = v) ∧
-    (∀ e, vMatchPattern (.ok m) v = .raises e → e = .validator) ∧
+theorem pattern_exact (reMatch : Val → Orc Bool) (v : Val) :
+    (matchPatternValidate reMatch v = .ok v ↔ reMatch v = .ok true) ∧
+    (∀ r, matchPatternValidate reMatch v = .ok r → r = v) ∧
+    (reMatch v = .ok false → matchPatternValidate reMatch v = .raises .validator) ∧
+    (∀ e, matchPatternValidate reMatch v = .raises e → e = .validator ∨ reMatch v = .raises e) ∧
     matchPatternMethod = "search" ∧ matchPatternSubject = "str(value)" := by
-  refine ⟨?_, ?_, ?_, by decide, by decide⟩ <;> cases m <;> simp [vMatchPattern, matchPatternRejects, raiseExceptionClass, eq_comm]
+  rw [matchPatternValidate_eq]
+  refine ⟨?_, ?_, ?_, ?_, by decide, by decide⟩ <;>
+    (cases reMatch v with
+     | ok m => cases m <;> simp [eq_comm]
+     | raises e => simp [eq_comm])
+
+theorem pattern_meets_spec (reMatch : Val → Orc Bool) (v : Val) :
+    match specOracleBool (reMatch v) v true with
+    | .accept r _ => vMatchPattern reMatch v = .ok r
+    | .reject => vMatchPattern reMatch v = .raises .validator
+    | .na => True := by
+  unfold vMatchPattern specOracleBool
+  rw [matchPatternValidate_eq]
+  cases reMatch v with
+  | ok m => cases m <;> simp
+  | raises e => simp
 
 /-- **Email with a custom pattern.** accepted ⇔ `re.fullmatch(pattern, v)` matches; returns `post_processor(v)`. -/
-theorem email_custom_exact (m : Bool) (post : Val → Val) (v : Val) :
-    (∀ r, vEmailCustom (.ok m) post v = .ok r ↔ (m = true ∧ r = post v)) ∧
-    (∀ e, vEmailCustom (.ok m) post v = .raises e → e = .validator) := by
-  cases m <;> simp [vEmailCustom, emailRejects, raiseExceptionClass, eq_comm]
+theorem email_custom_exact (reMatch : Val → Orc Bool) (post : Val → Val) (v : Val) :
+    (∀ r, emailValidate reMatch post v = .ok r ↔ (reMatch v = .ok true ∧ r = post v)) ∧
+    (reMatch v = .ok false → emailValidate reMatch post v = .raises .validator) ∧
+    (∀ e, emailValidate reMatch post v = .raises e → e = .validator ∨ reMatch v = .raises e) := by
+  rw [emailValidate_eq]
+  refine ⟨?_, ?_, ?_⟩ <;>
+    (cases reMatch v with
+     | ok m => cases m <;> simp [eq_comm]
+     | raises e => simp [eq_comm])
+
+theorem email_custom_meets_spec (reMatch : Val → Orc Bool) (post : Val → Val) (v : Val) :
+    match specOracleBool (reMatch v) (post v) false with
+    | .accept r _ => vEmailCustom reMatch post v = .ok r
+    | .reject => vEmailCustom reMatch post v = .raises .validator
+    | .na => True := by
+  unfold vEmailCustom specOracleBool
+  rw [emailValidate_eq]
+  cases reMatch v with
+  | ok m => cases m <;> simp
+  | raises e => simp
+
+/-- the key IsEnum looks up: the upper-cased value when it is a str and `to_upper_case`, else the value -/
+def EnumEnv.key (env : EnumEnv) (toUpper : Bool) (v : Val) : Val := if env.isStrInst v && toUpper then env.upperOf v else v
+/-- what the lookup of key `k` answers: `enum(int(k))` for an IntEnum, else `enum(k)` -/
+def EnumEnv.looked (env : EnumEnv) (k : Val) : Orc Val :=
+  if env.isIntEnum then
+    match env.intOf k with
+    | .ok i => env.enumOf i
+    | .raises e => .raises e
+  else env.enumOf k
+
+/-- the translated body of `IsEnum.validate`, as a function of what the lookup answers (every path of the generated
+    function is walked: `repeat' split`) -/
+theorem isEnumValidate_eq (convert toUpper : Bool) (env : EnumEnv) (v : Val)
+    (ho : (env.looked (env.key toUpper v)).raisesWithin (intOfRaises ++ enumLookupRaises)) :
+    vIsEnum convert toUpper env v =
+      match env.looked (env.key toUpper v) with
+      | .ok m => .ok (if convert then m else env.key toUpper v)
+      | .raises _ => .raises .validator := by
+  have hc := @caught_of_within Val (env.looked (env.key toUpper v)) _ _ enum_catches_all ho
+  unfold vIsEnum isEnumValidate
+  unfold EnumEnv.looked EnumEnv.key at *
+  cases hup : (env.isStrInst v && toUpper) <;> cases hie : env.isIntEnum <;>
+    simp only [hup, hie, Bool.false_eq_true, ↓reduceIte] at hc ⊢
+  all_goals walk_paths
 
 /-- **IsEnum.** accepted ⇔ the value (upper-cased if a str and `to_upper_case`; through `int()` for an IntEnum) names a
     member; returns the member when `convert`, else the (upper-cased) value; every rejection — whichever class `int()` or
     the enum lookup raised — is a ValidatorException. -/
 theorem enum_exact (convert toUpper : Bool) (env : EnumEnv) (v : Val)
-    (ho : (env.looked (env.valueIsStr && toUpper)).raisesWithin (intOfRaises ++ enumLookupRaises)) :
+    (ho : (env.looked (env.key toUpper v)).raisesWithin (intOfRaises ++ enumLookupRaises)) :
     (∀ r, vIsEnum convert toUpper env v = .ok r ↔
-        ∃ m, env.looked (env.valueIsStr && toUpper) = .ok m ∧ r = if convert then m else (if env.valueIsStr && toUpper then env.upper else v)) ∧
+        ∃ m, env.looked (env.key toUpper v) = .ok m ∧ r = if convert then m else env.key toUpper v) ∧
     (∀ e, vIsEnum convert toUpper env v = .raises e → e = .validator) ∧
-    ((∃ e, env.looked (env.valueIsStr && toUpper) = .raises e) → vIsEnum convert toUpper env v = .raises .validator) := by
-  unfold vIsEnum
-  simp only []
-  rw [tryExcept_of_caught _ _ _ _ _ enum_catches_all ho]
-  cases env.looked (env.valueIsStr && toUpper) <;> simp [Orc.fold, isEnumHandler0, raiseExceptionClass]
-  intro r; constructor <;> intro h <;> exact h.symm
+    ((∃ e, env.looked (env.key toUpper v) = .raises e) → vIsEnum convert toUpper env v = .raises .validator) := by
+  rw [isEnumValidate_eq convert toUpper env v ho]
+  cases env.looked (env.key toUpper v) with
+  | ok m =>
+    refine ⟨fun r => ⟨fun h => ⟨m, rfl, ?_⟩, fun ⟨m', hm, hr⟩ => ?_⟩, fun e h => ?_, fun ⟨e, h⟩ => ?_⟩
+    · cases h; rfl
+    · cases hm; rw [hr]
+    · cases h
+    · cases h
+  | raises e =>
+    refine ⟨fun r => ⟨fun h => ?_, fun ⟨m', hm, _⟩ => ?_⟩, fun e h => ?_, fun _ => rfl⟩
+    · cases h
+    · cases hm
+    · cases h; rfl
+
+theorem enum_meets_spec (convert toUpper : Bool) (env : EnumEnv) (v : Val)
+    (ho : (env.looked (env.key toUpper v)).raisesWithin (intOfRaises ++ enumLookupRaises)) :
+    match specIsEnum convert toUpper env v with
+    | .accept r _ => vIsEnum convert toUpper env v = .ok r
+    | .reject => vIsEnum convert toUpper env v = .raises .validator
+    | .na => True := by
+  have h := enum_exact convert toUpper env v ho
+  have hk : (enumKey toUpper env v).1 = env.key toUpper v := by
+    unfold enumKey EnumEnv.key; rw [Bool.and_comm]; split <;> rfl
+  have hm : enumMember env (env.key toUpper v) = (env.looked (env.key toUpper v)).toOption := by
+    unfold enumMember EnumEnv.looked
+    cases env.isIntEnum
+    · simp
+    · cases env.intOf (env.key toUpper v) <;> simp [Orc.toOption]
+  unfold specIsEnum
+  rw [hk, hm]
+  cases hl : env.looked (env.key toUpper v) with
+  | ok m => cases convert <;> simp [Orc.toOption, (h.1 _).2 ⟨m, hl, rfl⟩]
+  | raises e => simp [Orc.toOption, h.2.2 ⟨e, hl⟩]
 
 /-- the input that used to escape (fixed in /repo 09f6ab5): `IsEnum(<IntEnum>).validate(float('inf'))` -/
-def infEnv : EnumEnv := ⟨false, .none, true, fun _ => .raises .overflowError, fun _ _ => .raises .valueError⟩
+def infEnv : EnumEnv := ⟨fun _ => false, fun x => x, true, fun _ => .raises .overflowError, fun _ => .raises .valueError⟩
 example : vIsEnum true true infEnv (.float .pinf false) = .raises .validator := rfl
+-- non-vacuity: a str value, upper-cased, read as an int, found
+def demoEnumEnv : EnumEnv := ⟨Val.isStr, fun _ => .str ['1'], true, fun _ => .ok (.int 1), fun _ => .ok (.ext "enum" "IE.A")⟩
+example : vIsEnum true true demoEnumEnv (.str ['1']) = .ok (.ext "enum" "IE.A") := rfl
+example : vIsEnum false true demoEnumEnv (.str ['1']) = .ok (.str ['1']) := rfl
 
 /-- the date the source adds the seconds to is the literal 1970-01-01 (about the generated `dateTimeUnixTimestampEpoch`): a
     timestamp denotes the same naive datetime in every time zone -/
 theorem unix_epoch_is_1970 : epochUs = some 0 := by decide
 
-theorem addEpoch_eq (us : Int) :
-    addEpoch us = if minUs ≤ us ∧ us ≤ maxUs then .ok (mkDatetime us) else .raises .overflowError := by
-  simp [addEpoch, unix_epoch_is_1970]
+theorem datetimePlus_epoch (us : Int) :
+    datetimePlus dateTimeUnixTimestampEpoch us = if minUs ≤ us ∧ us ≤ maxUs then .ok (mkDatetime us) else .raises .overflowError := by
+  have h : epochUsOf dateTimeUnixTimestampEpoch = some 0 := unix_epoch_is_1970
+  simp [datetimePlus, h]
 
 /-- **No import-time computation** (about the generated list): the modules of the validators package and convert_value.py
     compute nothing when they are imported — no module- or class-level value, parameter default or decorator argument is
@@ -579,62 +747,108 @@ theorem addEpoch_eq (us : Int) :
     of its configuration and its argument alone, as the theorems of this file assume. -/
 theorem no_import_time_computation : importTimeComputations = [] := by decide
 
+/-- the translated body of `DateTimeUnixTimestamp.validate`, as a function of what `float` and `timedelta` answer -/
+theorem unix_eq (floatOf : Val → Orc Num) (timedeltaOf : Num → Orc Int) (v : Val)
+    (hfl : isSecondsValue v = true → (floatOf v).raisesWithin floatOfRaises) (htd : ∀ x, (timedeltaOf x).raisesWithin timedeltaRaises) :
+    vUnix floatOf timedeltaOf v =
+      if isSecondsValue v then
+        match floatOf v with
+        | .raises _ => .raises .validator
+        | .ok x =>
+          match timedeltaOf x with
+          | .raises _ => .raises .validator
+          | .ok us => if minUs ≤ us ∧ us ≤ maxUs then .ok (mkDatetime us) else .raises .validator
+      else .raises .validator := by
+  have hov : catches dateTimeUnixTimestampCaught1 .overflowError = true := by decide
+  have hc0 : isSecondsValue v = true → ∀ e, floatOf v = .raises e → catches dateTimeUnixTimestampCaught0 e = true :=
+    fun hb e h => caught_of_within unix_float_catches_all (hfl hb) h
+  have hc1 : ∀ x e, timedeltaOf x = .raises e → catches dateTimeUnixTimestampCaught1 e = true :=
+    fun x e h => unix_add_catches_all e (by have := htd x e h; simp [this])
+  unfold vUnix dateTimeUnixTimestampValidate
+  simp only [datetimePlus_epoch]
+  -- the isinstance test of the source, whatever the order of its tuple: decided per kind of value
+  cases v <;> simp only [Val.isInstanceOf, isSecondsValue, List.any_cons, List.any_nil] at hc0 ⊢ <;> walk_paths
+
 /-- **DateTimeUnixTimestamp.** accepted ⇔ the value is an int / float / str, `float(v)` succeeds, `timedelta(seconds=…)`
-    succeeds with `us` microseconds and `datetime.min ≤ epoch + us ≤ datetime.max`; returns that datetime. -/
-theorem unix_exact (fl : Orc Num) (td : Orc Int) (v : Val)
-    (hfl : fl.raisesWithin floatOfRaises) (htd : td.raisesWithin timedeltaRaises) :
-    (∀ r, vUnix fl td v = .ok r ↔
-        ((v.isInstanceOf "int" ∨ v.isInstanceOf "float" ∨ v.isInstanceOf "str") ∧
-         ∃ x us, fl = .ok x ∧ td = .ok us ∧ specMinUs ≤ us ∧ us ≤ specMaxUs ∧ r = mkDatetime us)) ∧
-    (∀ e, vUnix fl td v = .raises e → e = .validator) := by
+    succeeds with `us` microseconds and `datetime.min ≤ epoch + us ≤ datetime.max`; returns that datetime.  `float` is only
+    assumed to stay within its documented exceptions on the documented domain: were it asked before the isinstance guard,
+    the second clause would not be provable. -/
+theorem unix_exact (floatOf : Val → Orc Num) (timedeltaOf : Num → Orc Int) (v : Val)
+    (hfl : isSecondsValue v = true → (floatOf v).raisesWithin floatOfRaises) (htd : ∀ x, (timedeltaOf x).raisesWithin timedeltaRaises) :
+    (∀ r, vUnix floatOf timedeltaOf v = .ok r ↔
+        (isSecondsValue v = true ∧
+         ∃ x us, floatOf v = .ok x ∧ timedeltaOf x = .ok us ∧ specMinUs ≤ us ∧ us ≤ specMaxUs ∧ r = mkDatetime us)) ∧
+    (∀ e, vUnix floatOf timedeltaOf v = .raises e → e = .validator) := by
   have hmin : specMinUs = minUs := by decide
   have hmax : specMaxUs = maxUs := by decide
-  have hty : dateTimeUnixTimestampTypes.any (fun n => v.isInstanceOf n)
-      = (v.isInstanceOf "int" || v.isInstanceOf "float" || v.isInstanceOf "str") := by
-    simp [dateTimeUnixTimestampTypes, Bool.or_assoc]
-  have hov : catches dateTimeUnixTimestampCaught1 .overflowError = true := by decide
-  unfold vUnix
-  rw [hty, hmin, hmax]
-  cases hb : (v.isInstanceOf "int" || v.isInstanceOf "float" || v.isInstanceOf "str")
-  · have hnot : ¬ (v.isInstanceOf "int" = true ∨ v.isInstanceOf "float" = true ∨ v.isInstanceOf "str" = true) := by
-      intro h; simp [Bool.or_eq_true] at hb; rcases h with h | h | h <;> simp [h] at hb
-    simp [dateTimeUnixTimestampRejects, raiseExceptionClass, hnot]
-  · have hyes : (v.isInstanceOf "int" = true ∨ v.isInstanceOf "float" = true ∨ v.isInstanceOf "str" = true) := by
-      simpa [Bool.or_eq_true, or_assoc] using hb
-    simp only [Bool.not_true, Bool.false_eq_true, ↓reduceIte]
-    cases fl with
-    | raises e =>
-      have := unix_float_catches_all e (hfl e rfl)
-      simp [tryExcept, this, dateTimeUnixTimestampHandler0, raiseExceptionClass]
+  rw [unix_eq floatOf timedeltaOf v hfl htd, hmin, hmax]
+  cases hb : isSecondsValue v
+  · simp
+  · simp only [↓reduceIte, true_and]
+    cases hf : floatOf v with
+    | raises e => simp
     | ok x =>
-      cases td with
+      simp only []
+      cases ht : timedeltaOf x with
       | raises e =>
-        have := unix_add_catches_all e (by have := htd e rfl; simp [this])
-        simp [tryExcept, this, dateTimeUnixTimestampHandler1, raiseExceptionClass]
+        simp only []
+        constructor
+        · intro r; constructor
+          · intro h; cases h
+          · intro ⟨x', us', hx, hu, _⟩
+            cases hx; rw [ht] at hu; cases hu
+        · intro e' h; cases h; rfl
       | ok us =>
+        simp only []
         by_cases hr : minUs ≤ us ∧ us ≤ maxUs
-        · simp only [tryExcept, addEpoch_eq, hr, and_self, ↓reduceIte]
-          refine ⟨?_, ?_⟩
+        · simp only [hr, and_self, ↓reduceIte]
+          constructor
           · intro r; constructor
-            · intro h; cases h; exact ⟨hyes, x, us, rfl, rfl, hr.1, hr.2, rfl⟩
-            · intro ⟨_, x', us', hx, hu, h1, h2, hr2⟩
-              cases hu; rw [hr2]
+            · intro h; cases h; exact ⟨x, us, rfl, ht, hr.1, hr.2, rfl⟩
+            · intro ⟨x', us', hx, hu, _, _, hr2⟩
+              cases hx; rw [ht] at hu; cases hu; rw [hr2]
           · intro e h; cases h
-        · have hr' : ¬ (minUs ≤ us ∧ us ≤ maxUs) := hr
-          simp only [tryExcept, addEpoch_eq, hr, ↓reduceIte, hov, dateTimeUnixTimestampHandler1, raiseExceptionClass]
-          refine ⟨?_, ?_⟩
+        · simp only [hr, ↓reduceIte]
+          constructor
           · intro r; constructor
             · intro h; cases h
-            · intro ⟨_, x', us', hx, hu, h1, h2, _⟩
-              cases hu; exact absurd ⟨h1, h2⟩ hr'
+            · intro ⟨x', us', hx, hu, h1, h2, _⟩
+              cases hx; rw [ht] at hu; cases hu; exact absurd ⟨h1, h2⟩ hr
           · intro e h; cases h; rfl
 
-example : vIsUuid true (.ok (.ext "uuid" "x")) (.str []) = .ok (.ext "uuid" "x") := rfl
-example : vIsUuid false (.raises .valueError) (.int 5) = .raises .validator := rfl
-example : vUnix (.ok (.fin 253402300800 1)) (.ok 253402300800000000) (.int 253402300800) = .raises .validator := rfl
-example : vUnix (.ok (.fin 0 1)) (.ok 0) (.bool false) = .ok (mkDatetime 0) := rfl
-example : vUnix (.raises .overflowError) (.raises .overflowError) (.int 5) = .raises .validator := rfl
-example : vUnix (.ok .nan) (.raises .valueError) (.float .nan false) = .raises .validator := rfl
+/-- DateTimeUnixTimestamp meets the executable specification the driver reports -/
+theorem unix_meets_spec (floatOf : Val → Orc Num) (timedeltaOf : Num → Orc Int) (v : Val)
+    (hfl : isSecondsValue v = true → (floatOf v).raisesWithin floatOfRaises) (htd : ∀ x, (timedeltaOf x).raisesWithin timedeltaRaises) :
+    match specUnix floatOf timedeltaOf v with
+    | .accept r _ => vUnix floatOf timedeltaOf v = .ok r
+    | .reject => vUnix floatOf timedeltaOf v = .raises .validator
+    | .na => True := by
+  have hmin : specMinUs = minUs := by decide
+  have hmax : specMaxUs = maxUs := by decide
+  rw [unix_eq floatOf timedeltaOf v hfl htd]
+  unfold specUnix
+  rw [hmin, hmax]
+  cases hb : isSecondsValue v
+  · simp
+  · simp only [↓reduceIte]
+    cases hf : floatOf v with
+    | raises e => simp [Orc.toOption]
+    | ok x =>
+      cases ht : timedeltaOf x with
+      | raises e => simp [Orc.toOption, ht]
+      | ok us =>
+        simp only [Orc.toOption, Option.bind_some, ht]
+        by_cases hr : minUs ≤ us ∧ us ≤ maxUs
+        · simp [hr, mkDatetime]
+        · simp [hr]
+
+example : vIsUuid true (fun _ => .ok (.ext "uuid" "x")) (.str []) = .ok (.ext "uuid" "x") := rfl
+example : vIsUuid false (fun _ => .raises .valueError) (.int 5) = .raises .validator := rfl
+example : vUnix (fun _ => .ok (.fin 253402300800 1)) (fun _ => .ok 253402300800000000) (.int 253402300800) = .raises .validator := rfl
+example : vUnix (fun _ => .ok (.fin 0 1)) (fun _ => .ok 0) (.bool false) = .ok (mkDatetime 0) := rfl
+example : vUnix (fun _ => .raises .overflowError) (fun _ => .raises .overflowError) (.int 5) = .raises .validator := rfl
+example : vUnix (fun _ => .ok .nan) (fun _ => .raises .valueError) (.float .nan false) = .raises .validator := rfl
+example : vUnix (fun _ => .raises .typeError) (fun _ => .ok 0) .none = .raises .validator := rfl
 
 /-! ## ForEach / Composite -/
 
@@ -853,6 +1067,104 @@ theorem tree_rejects_with_validator (sem : Nat → Val → VRes Val) (hsem : ∀
   · exact h
   · exact hsem i x' e h
 
+/-! ### the executable tree specification the driver reports (`specTree`) -/
+
+/-- the outcome of `run`, in the vocabulary of `specTree` -/
+def TreeOut.ofRes : VRes Val → TreeOut
+  | .ok y => ⟨some y, false⟩
+  | .raises e => ⟨none, e != .validator⟩
+
+theorem eachItem_spec (f : Val → VRes Val) (g : Val → TreeOut) (h : ∀ a, g a = TreeOut.ofRes (f a)) : ∀ xs : List Val,
+    match eachItem f xs with
+    | .ok ys => (xs.map g).all (fun r => r.out.isSome) = true ∧ (xs.map g).filterMap (·.out) = ys
+    | .raises e => (xs.map g).all (fun r => r.out.isSome) = false ∧
+        ((xs.map g).dropWhile (fun r => r.out.isSome)).head?.any (·.foreign) = (e != .validator) := by
+  intro xs
+  induction xs with
+  | nil => simp [eachItem]
+  | cons a as ih =>
+    simp only [eachItem, List.map_cons]
+    cases hfa : f a with
+    | raises e => simp [h a, hfa, TreeOut.ofRes]
+    | ok y =>
+      simp only []
+      cases hr : eachItem f as with
+      | ok ys => rw [hr] at ih; simp only [] at ih ⊢; simp [h a, hfa, TreeOut.ofRes, ih.1, ih.2]
+      | raises e => rw [hr] at ih; simp only [] at ih ⊢; simp [h a, hfa, TreeOut.ofRes, ih.1, ih.2]
+
+mutual
+/-- **the functional spec is the model's outcome**, for every tree (any depth), every leaf semantics and every value:
+    accepted with the same output, or rejected with the same "a leaf raised something foreign" flag -/
+theorem specTree_eq_run (sem : Nat → Val → VRes Val) : ∀ (t : VT) (x : Val), specTree sem t x = TreeOut.ofRes (run sem t x)
+  | .leaf i, x => by
+    simp only [specTree, run]
+    cases sem i x <;> rfl
+  | .forEach ch, x => by
+    have hch := specChain_eq_run sem ch
+    have he := eachItem_spec (fun it => runChain sem ch it) (fun it => specChain sem ch it) hch
+    simp only [specTree, run]
+    cases hit : x.isIterable
+    · have : x.items = none := by
+        cases hi : x.items with
+        | none => rfl
+        | some xs => have := (isIterable_iff_items x).2 ⟨xs, hi⟩; simp [hit] at this
+      simp [this, TreeOut.ofRes, forEachRejects, raiseExceptionClass]
+    · obtain ⟨xs, hxs⟩ := (isIterable_iff_items x).1 hit
+      simp only [hxs, Bool.not_true, Bool.false_eq_true, ↓reduceIte]
+      have h := he xs
+      cases hr : eachItem (fun it => runChain sem ch it) xs with
+      | ok ys => rw [hr] at h; simp only [] at h ⊢; simp [h.1, h.2, TreeOut.ofRes]
+      | raises e => rw [hr] at h; simp only [] at h ⊢; simp [h.1, h.2, TreeOut.ofRes]
+  | .composite cs, x => by
+    have h := specEvery_runAll sem cs x
+    simp only [specTree, run]
+    cases hr : runAll sem cs x with
+    | none => rw [hr] at h; simp only [] at h ⊢; simp [h, TreeOut.ofRes]
+    | some e => rw [hr] at h; simp only [] at h ⊢; simp [h.1, h.2, TreeOut.ofRes]
+theorem specChain_eq_run (sem : Nat → Val → VRes Val) : ∀ (ch : List VT) (x : Val), specChain sem ch x = TreeOut.ofRes (runChain sem ch x)
+  | [], x => by simp [specChain, runChain, TreeOut.ofRes]
+  | v :: vs, x => by
+    have h1 := specTree_eq_run sem v x
+    simp only [specChain, runChain, h1]
+    cases hr : run sem v x with
+    | ok y => simp only [TreeOut.ofRes]; exact specChain_eq_run sem vs y
+    | raises e => simp [TreeOut.ofRes]
+theorem specEvery_runAll (sem : Nat → Val → VRes Val) : ∀ (cs : List VT) (x : Val),
+    match runAll sem cs x with
+    | none => (specEvery sem cs x).all (fun r => r.out.isSome) = true
+    | some e => (specEvery sem cs x).all (fun r => r.out.isSome) = false ∧
+        ((specEvery sem cs x).dropWhile (fun r => r.out.isSome)).head?.any (·.foreign) = (e != .validator)
+  | [], x => by simp [runAll, specEvery]
+  | v :: vs, x => by
+    have h1 := specTree_eq_run sem v x
+    have h2 := specEvery_runAll sem vs x
+    simp only [runAll, specEvery, h1]
+    cases hr : run sem v x with
+    | raises e => simp [TreeOut.ofRes]
+    | ok y =>
+      simp only []
+      cases hr2 : runAll sem vs x with
+      | none => rw [hr2] at h2; simp only [] at h2 ⊢; simp [TreeOut.ofRes, h2]
+      | some e => rw [hr2] at h2; simp only [] at h2 ⊢; simp [TreeOut.ofRes, h2.1, h2.2]
+end
+
+/-- **the functional `specTree` accepts iff the relational `Accepts` holds** (any depth, any leaves) -/
+theorem specTree_iff_Accepts (sem : Nat → Val → VRes Val) (t : VT) (x y : Val) :
+    (specTree sem t x).out = some y ↔ Accepts sem t x y := by
+  rw [specTree_eq_run, ← run_ok_iff]
+  cases run sem t x <;> simp [TreeOut.ofRes]
+
+/-- ForEach / Composite trees meet the executable specification the driver reports (`na` when a leaf raised a foreign class) -/
+theorem tree_meets_spec (sem : Nat → Val → VRes Val) (t : VT) (x : Val) (hf : (specTree sem t x).foreign = false) :
+    match (specTree sem t x).out with
+    | some y => run sem t x = .ok y
+    | none => run sem t x = .raises .validator := by
+  rw [specTree_eq_run] at hf ⊢
+  generalize run sem t x = r at hf ⊢
+  cases r with
+  | ok y => simp [TreeOut.ofRes]
+  | raises e => simpa [TreeOut.ofRes] using hf
+
 -- non-vacuity: a ForEach of a chain [leaf 0; ForEach [leaf 1]] over a nested list, leaves that transform / reject
 def demoSem : Nat → Val → VRes Val
   | 0, x => .ok x
@@ -915,8 +1227,44 @@ theorem pyStr_raises (env : CEnv) (hs : StrOracleOK env) (v : Val) (e : Exc) (h 
   | gen xs => exact hs _ e h
   | ext k r => exact hs _ e h
 
+/-- `target_type(value)` gives an instance of the target type or raises ValueError -/
+theorem construct_shape (env : CEnv) (hf : FloatOracleOK env) (s : List Char) (t : Target) :
+    match construct env s t with
+    | .ok r => r.isOfTarget t = true
+    | .raises e => e = .valueError := by
+  cases t with
+  | bool => simp [construct, Val.isOfTarget, Val.isInstanceOf, Target.name]
+  | str => simp [construct, Val.isOfTarget, Val.isInstanceOf, Target.name]
+  | list => simp [construct, Val.isOfTarget, Val.isInstanceOf, Target.name]
+  | dict =>
+    simp only [construct]
+    by_cases h : s.isEmpty = true
+    · simp [h, Val.isOfTarget, Val.isInstanceOf, Target.name]
+    · simp [h]
+  | int =>
+    simp only [construct]
+    rcases parseInt_shape env s with ⟨i, h⟩ | h <;> simp [h, Val.isOfTarget, Val.isInstanceOf, Target.name]
+  | float => exact hf s
+
+/-- a branch of its own gives an instance of its target type or ConversionError -/
+theorem ownBranch_ok (env : CEnv) (s : List Char) (t : Target) (r : VRes Val) (h : ownBranch env s t = some r) : ConvertOK t r := by
+  cases t with
+  | bool =>
+    simp only [ownBranch, Option.some.injEq] at h; subst h
+    split
+    · simp [ConvertOK, Val.isOfTarget, Val.isInstanceOf, Target.name]
+    · split
+      · simp [ConvertOK, Val.isOfTarget, Val.isInstanceOf, Target.name]
+      · simp [ConvertOK, convertBoolFail]
+  | list => simp only [ownBranch, Option.some.injEq] at h; subst h; simp [ConvertOK, Val.isOfTarget, Val.isInstanceOf, Target.name]
+  | dict => simp only [ownBranch, Option.some.injEq] at h; subst h; simp [ConvertOK, Val.isOfTarget, Val.isInstanceOf, Target.name]
+  | int => simp [ownBranch] at h
+  | float => simp [ownBranch] at h
+  | str => simp [ownBranch] at h
+
 /-- **convert_value is total.** For every value (including ints whose `str()` the interpreter refuses), every target type
-    and every interpreter table: the result is an instance of the target type, or the exception is ConversionError. -/
+    and every interpreter table: the result is an instance of the target type, or the exception is ConversionError — whichever
+    targets have a branch of their own (the proof does not look into `convertSpecialTargets`). -/
 theorem convert_total (env : CEnv) (v : Val) (t : Target) (hf : FloatOracleOK env) (hs : StrOracleOK env) :
     ConvertOK t (convert env v t) := by
   have hc : catches convertCaught .valueError = true := by decide
@@ -931,34 +1279,28 @@ theorem convert_total (env : CEnv) (v : Val) (t : Target) (hf : FloatOracleOK en
       simp [this, ConvertOK, convertStrHandlerRaises]
     | ok s0 =>
       simp only []
-      cases t with
-      | bool =>
+      cases hob : (if convertSpecialTargets.contains t.name then ownBranch env (normalise env s0) t else none) with
+      | some r =>
         simp only []
-        split
-        · simp [ConvertOK, Val.isOfTarget, Val.isInstanceOf, Target.name]
-        · split
-          · simp [ConvertOK, Val.isOfTarget, Val.isInstanceOf, Target.name]
-          · simp [ConvertOK, convertBoolFail]
-      | list => simp [ConvertOK, Val.isOfTarget, Val.isInstanceOf, Target.name]
-      | dict => simp [ConvertOK, Val.isOfTarget, Val.isInstanceOf, Target.name]
-      | str => simp [ConvertOK, Val.isOfTarget, Val.isInstanceOf, Target.name]
-      | int =>
+        refine ownBranch_ok env (normalise env s0) t r ?_
+        split at hob
+        · exact hob
+        · cases hob
+      | none =>
         simp only []
-        rcases parseInt_shape env (normalise env s0) with ⟨i, h⟩ | h
-        · simp [h, tryExcept, ConvertOK, Val.isOfTarget, Val.isInstanceOf, Target.name]
-        · simp [h, tryExcept, hc, ConvertOK, convertHandlerRaises]
-      | float =>
-        simp only []
-        have := hf (normalise env s0)
-        cases hfo : env.floatOf (normalise env s0) with
-        | ok r => rw [hfo] at this; simp [tryExcept, ConvertOK, this]
-        | raises e => rw [hfo] at this; subst this; simp [tryExcept, hc, ConvertOK, convertHandlerRaises]
+        have := construct_shape env hf (normalise env s0) t
+        cases hcon : construct env (normalise env s0) t with
+        | ok r => rw [hcon] at this; simpa [tryExcept, ConvertOK] using this
+        | raises e => rw [hcon] at this; simp only [] at this; subst this; simp [tryExcept, hc, ConvertOK, convertHandlerRaises]
 
 /-- the input that used to escape (fixed in /repo fed15a8): `str()` of an int beyond the digit limit (here: limit 1 digit) -/
 def tinyEnv : CEnv := ⟨fun _ => false, fun c => [c], fun _ => none, 1, fun _ => .ok [], fun _ => .raises .valueError⟩
 example : convert tinyEnv (.int 10) .float = .raises .conversion := by
   simp [convert, convertShortcut, Val.isOfTarget, Val.isInstanceOf, Target.name, pyStr, natDigits, natDigitsAcc, tinyEnv,
     catches, convertStrCaught, convertStrHandlerRaises, Exc.isSub]
+-- non-vacuity of the oracle guards of `convert_total`
+example : FloatOracleOK tinyEnv := by intro s; simp [tinyEnv]
+example : StrOracleOK tinyEnv := by intro v e h; simp [tinyEnv] at h
 
 /-- `convert_value(str(b), bool) == b` -/
 theorem convert_inverts_str_bool (env : CEnv) (b : Bool) (s : List Char) (hs : pyStr env (.bool b) = .ok s) :
@@ -1044,7 +1386,12 @@ theorem lowerStr_id (env : CEnv) (s : List Char) (h : ∀ c ∈ s, lowerChar env
     simp only [List.flatMap_cons, h a (by simp)]
     rw [ih (fun c hc => h c (by simp [hc]))]; rfl
 
-/-- `convert_value(str(i), int) == i` for every int whose `str()` exists (any sign, any size below the digit limit) -/
+/-- `convert_value(str(i), int) == i` for every int whose `str()` exists (any sign, any size below the digit limit).
+    `natDigits` (inside `pyStr`) and `parseInt` are HAND-WRITTEN models of CPython's `str(int)` and `int(str)` — decimal printing
+    and parsing (sign, `_` separators, Unicode digits, the digit limit); they are neither generated from a source nor oracles.
+    The theorem is about these two functions and the generated structure of `convert_value` around them; that CPython's
+    `str` / `int` are these functions is what the correspondence check exercises (the `convert:int/rt/…` round trips and the
+    `int` targets of the value zoo). -/
 theorem convert_inverts_str_int (env : CEnv) (i : Int) (s : List Char) (hs : pyStr env (.int i) = .ok s) :
     convert env (.str s) .int = .ok (.int i) := by
   simp only [pyStr] at hs
@@ -1079,8 +1426,10 @@ theorem convert_inverts_str_int (env : CEnv) (i : Int) (s : List Char) (hs : pyS
     obtain ⟨_, _, _, _, hm, hp⟩ := digitChar_facts env d hd
     have hparse := parse_natDigits env i.natAbs [] false
     simp only [List.append_nil, parseNatAcc, ↓reduceIte] at hparse
+    have hsp : convertSpecialTargets.contains "int" = false := by decide
     unfold convert
-    simp only [convertShortcut, Val.isOfTarget, Val.isInstanceOf, Target.name, Bool.true_and, pyStr, hnorm]
+    simp only [convertShortcut, Val.isOfTarget, Val.isInstanceOf, Target.name, Bool.true_and, pyStr, hnorm, hsp, construct,
+      Bool.false_eq_true, ↓reduceIte]
     by_cases hneg : i < 0
     · have hs' : s = '-' :: natDigits i.natAbs := by rw [← hs]; simp [hneg]
       subst hs'
@@ -1101,14 +1450,42 @@ theorem convert_inverts_str_int (env : CEnv) (i : Int) (s : List Char) (hs : pyS
       have hi : (i.natAbs : Int) = i := by omega
       simp [tryExcept, this, hi]
 
-/-- float tokens: `str(x)` and `float(s)` are interpreter oracles in this model; what the model adds is that the
-    normalisation and the try block do not get in the way.  That CPython's `float(repr(x)) == x` (with `repr` already
-    stripped and lower-case, incl. `inf`, `nan`, `-0.0`, exponents) is left to the correspondence check. -/
-theorem convert_inverts_str_float_cond (env : CEnv) (x : Val) (s : List Char)
-    (horacle : env.floatOf (normalise env s) = .ok x) :
-    convert env (.str s) .float = .ok x := by
-  simp [convert, convertShortcut, Val.isOfTarget, Val.isInstanceOf, Target.name, pyStr, horacle, tryExcept]
+/-- **Round-trip assumption about the interpreter** (an explicitly named hypothesis on the environment, not a Lean
+    postulate): `float()` reads back, from the stripped and lower-cased text, the float whose `str()` that text is — CPython's
+    `float(repr(x)) == x` for every float incl. `inf`, `nan`, `-0.0` and exponents (`1e+16` lower-cases to itself).  `str(x)`
+    and `float(s)` are oracles of this model; the assumption is what the `convert:float/rt/…` round trips of the correspondence
+    check exercise (10^4 floats per run). -/
+def FloatRoundTrip (env : CEnv) : Prop :=
+  ∀ (x : Num) (z : Bool) (s : List Char), env.strOf (.float x z) = .ok s → env.floatOf (normalise env s) = .ok (.float x z)
 
+/-- `convert_value(str(x), float) == x` for every float, GIVEN that the interpreter's `float` inverts its `str`
+    (`FloatRoundTrip`): the shortcut does not fire on the str, normalisation is the one the oracle assumption is about, float
+    has no branch of its own and the try block hands the answer of `float()` through unchanged. -/
+theorem convert_inverts_str_float (env : CEnv) (hrt : FloatRoundTrip env) (x : Num) (z : Bool) (s : List Char)
+    (hs : pyStr env (.float x z) = .ok s) :
+    convert env (.str s) .float = .ok (.float x z) := by
+  have h := hrt x z s (by simpa [pyStr] using hs)
+  have hsp : ¬ ("float" ∈ convertSpecialTargets) := by decide
+  simp [convert, convertShortcut, Val.isOfTarget, Val.isInstanceOf, Target.name, pyStr, hsp, construct, h, tryExcept]
+
+/-- non-vacuity: an environment that prints 1.5 as "1.5" and reads it back satisfies the assumption, and the theorem applies -/
+def rtEnv : CEnv :=
+  ⟨fun _ => false, fun c => [c], fun _ => none, 4300,
+   fun v => match v with
+     | .float x z => if x = .fin 3 2 ∧ z = false then .ok "1.5".toList else .raises .valueError
+     | _ => .raises .valueError,
+   fun s => if s = "1.5".toList then .ok (.float (.fin 3 2) false) else .raises .valueError⟩
+theorem rtEnv_roundTrips : FloatRoundTrip rtEnv := by
+  intro x z s h
+  simp only [rtEnv] at h
+  split at h
+  · rename_i hxz
+    cases h
+    obtain ⟨rfl, rfl⟩ := hxz
+    rfl
+  · cases h
+example : convert rtEnv (.str "1.5".toList) .float = .ok (.float (.fin 3 2) false) :=
+  convert_inverts_str_float rtEnv rtEnv_roundTrips (.fin 3 2) false "1.5".toList rfl
 
 example (env : CEnv) : convert env (.str " TRUE ".toList) .bool = .ok (.bool true) := rfl
 example (env : CEnv) : convert env (.str "a:b:c, d : e ,f".toList) .dict
